@@ -1440,3 +1440,42 @@ def weakforms_rule(ctx, rid="R13.E1"):
         return (f"weak forms position-dependent coefficient, mesh moved {elem}", anchor, thunk)
 
     run_scenarios(ctx, r, [thermal("TRI3"), thermal("QUAD4"), thermal("TRI6"), moved("TRI3"), moved("QUAD4")])
+
+
+# ---------------------------------------------------------------------------------------------------------------------
+# C10 / C01 / C07: beam element groups measure what the geometry says, in every orientation
+def beam_length_rule(ctx, rid="R10.18"):
+    repo = ctx.repo
+    r = ctx.rule(rid, "beam element groups (Euler-Bernoulli and Timoshenko classes, as the Beam simulation builds them) report the Euclidean length of every element for members along x, in the plane (3-4-5), out of the plane (1-2-2, 2-3-6) and along z: the Hermitian rotation functions are scaled by it", min_instances=4)
+    W0 = World(repo)
+    BM = "EasyFEA.FEM.Elems._beam."
+    anchor = repo.func(BM + "_Construct_Euler_Bernoulli_mesh")
+
+    def scenario(kind, elem, d, L):
+        def thunk():
+            W = World(repo, lib=W0.lib)
+            n = 2
+            cells = [[tuple(Q(k) * c / n for c in d), tuple(Q(k + 1) * c / n for c in d)] for k in range(n)]
+            md = build_mesh_data(W.lib, elem, cells)
+            mesh = W.mesh(md)
+            bmesh = W.func(BM + ("_Construct_Euler_Bernoulli_mesh" if kind == "EB" else "_Construct_Timoshenko_mesh"), mesh)
+            g = W.get(bmesh, "groupElem")
+            le = polys(W.get(g, "length_e"))
+            if len(le) != n:
+                return f"{kind} {elem}: {len(le)} lengths for {n} elements"
+            for k, v in enumerate(le):
+                if not same(v, Q(L, n)):
+                    return f"{kind} {elem} member along {tuple(str(c) for c in d)}: element {k} has length_e = {v}, its end nodes are {Q(L, n)} apart"
+            tot = W.get(bmesh, "length")
+            if not same(tot, L):
+                return f"{kind} {elem} member along {tuple(str(c) for c in d)}: the mesh length is {polys(tot)[0]}, the member is {L} long"
+            return None
+
+        return (f"beam length {kind} {elem} along {d}", anchor, thunk)
+
+    scen = []
+    for kind in ("EB", "TIMO"):
+        for d, L in (((Q(4), Q(0), Q(0)), 4), ((Q(3), Q(4), Q(0)), 5), ((Q(1), Q(2), Q(2)), 3), ((Q(2), Q(3), Q(6)), 7), ((Q(0), Q(0), Q(2)), 2)):
+            scen.append(scenario(kind, "SEG2", d, L))
+    scen.append(scenario("EB", "SEG3", (Q(1), Q(2), Q(2)), 3))
+    run_scenarios(ctx, r, scen)
